@@ -194,7 +194,7 @@ def other_cases():
         ("regexp_replace('a.b.c', '\\\\.', '-')", "a-b-c"), ("regexp_replace('abc', 'b')", "ac"), ("upper(regexp_replace(regexp_replace('a1b22', '[0-9]+', '#'), '#', '-'))", "A-B-"),
         ("regexp_substr('hello world', 'o w')", "o w"), ("regexp_substr('abc', 'x')", None), ("regexp_substr('aaa', 'a', 2)", "a"),
         ("length(regexp_replace('x' || regexp_replace('aa', 'a', 'bb'), 'b', 'c'))", 5),
-        ("trim('  a ')", "a"), ("trim(c0::varchar)", "7"), ("sha2('a')", sha), ("sha2('a', 256)", sha), ("sha2_hex('a')", sha), ("sha2_binary('a')", bytes.fromhex(sha)),
+        ("trim('  a ')", "a"), ("trim(c0::varchar)", "7"), ("trim('xxaxx', 'x')", "a"), ("trim(trim('--ab--', '-'), 'a')", "b"), ("trim(c0, '7') || '.'", "."), ("sha2('a')", sha), ("sha2('a', 256)", sha), ("sha2_hex('a')", sha), ("sha2_binary('a')", bytes.fromhex(sha)),
         ("to_timestamp('2020-01-02 03:04:05')", datetime.datetime(2020, 1, 2, 3, 4, 5)), ("to_timestamp_ntz('2020-01-02')", datetime.datetime(2020, 1, 2)),
         ("to_timestamp(1600000000)", datetime.datetime(2020, 9, 13, 12, 26, 40)), ("to_date('04/03/2020', 'DD/MM/YYYY')", datetime.date(2020, 3, 4)),
         ("c0::float", 7.0), ("c0 / 2", 3.5), ("c3::int", 12), ("'5'::int + 1", 6), ("c0::varchar || 'x'", "7x"), ("c3::float", 12.34),
@@ -440,7 +440,7 @@ def main():
         except Exception:  # noqa: BLE001
             pass
     # ---- (5) recorded findings: replay their witnesses
-    for fid, sql, want_v in [("C10-trim-chars", "select trim('xxaxx', 'x')", "a"), ("C10-dateadd-quarter", "select dateadd(quarter, 1, '2021-01-31'::date)", datetime.date(2021, 4, 30)),
+    for fid, sql, want_v in [("C10-dateadd-quarter", "select dateadd(quarter, 1, '2021-01-31'::date)", datetime.date(2021, 4, 30)),
                              ("C10-dateadd-date-column-type", "select dateadd(day, 1, c1) from t where id = 0", datetime.date(2020, 2, 1)),
                              ("C10-decimal-narrowing-truncates", "select to_decimal(1.45, 10, 1)", Decimal("1.5")), ("C10-array-agg-empty", "select array_agg(customer_id) from j1 where 1 = 0", "[]"),
                              ("C10-random-second", "select random(1) as a, random(1) as b", None), ("C10-to-timestamp-scale", "select to_timestamp(1600000000, 3)", datetime.datetime(1970, 1, 19, 12, 26, 40))]:
